@@ -502,7 +502,9 @@ def toStr (e : Expr) : List Char := ((sem e).one {}).buf
 
 /-! ## the token sequence of a printed tree (what the text is meant to be read back as) -/
 
-def encTok (s : String) : String := s
+/-- the operator token the tokenizer produces for the spelling of `o` (`-` is always read as
+    `op::sub`, `++` as `op::leftIncrement`, ...; the parser resolves it again) -/
+def lexedOp (o : Op) : Op := (registered.find? (fun r => r.str == o.str)).getD o
 
 def printToks : Expr → List Tok
   | .empty => []
@@ -511,9 +513,9 @@ def printToks : Expr → List Tok
   | .str e v u => [.str e v u]
   | .chr e v u => [.chr e v u]
   | .vtype n k => [.vtype n k]
-  | .lu o e => .op o :: printToks e
-  | .ru o e => printToks e ++ [.op o]
-  | .bin o l r => printToks l ++ [.op o] ++ printToks r
+  | .lu o e => .op (lexedOp o) :: printToks e
+  | .ru o e => printToks e ++ [.op (lexedOp o)]
+  | .bin o l r => printToks l ++ [.op (lexedOp o)] ++ printToks r
   | .tern c t f => printToks c ++ [.op .questionMark] ++ printToks t ++ [.op .colon] ++ printToks f
   | .paren e => [.op .parenthesesStart] ++ printToks e ++ [.op .parenthesesEnd]
   | .call f a => printToks f ++ [.op .parenthesesStart] ++ printToks a ++ [.op .parenthesesEnd]
